@@ -5,6 +5,8 @@ documented domain: out-of-domain => raise and connection untouched; in-domain =>
 masked, wrapped or cut)."""
 from harness import clientlib as cl, reqcommon
 
+WIDE = 200000        # thorough tier: histories of the wide correspondence stream (widegen.py), judged by the model and the generic rule
+WIDE_QUICK = 2000
 PROP = 'C07'
 EXHAUSTIVE = False
 RULE = ('per entry point, each parameter over the boundary values of its kind (U7/U8/U16/U24/U64/format/nibble/optional), '
